@@ -9,6 +9,11 @@ def opt(name, default):
         if a == name: return args[i + 1]
     return default
 runs = opt("--runs", None); seeds = opt("--seeds", "0").split(","); tier = opt("--tier", "quick")
+# run from a private snapshot of the machinery so that edits made to /verif while a long matrix runs do not leak into it
+snap = tempfile.mkdtemp(prefix="vsnap-", dir="/tmp")
+for d in ("simverif", "csim", "tools"):
+    shutil.copytree(os.path.join("/verif", d), os.path.join(snap, d), ignore=shutil.ignore_patterns("__pycache__"))
+shutil.copy("/verif/known_findings.json", snap)
 wt = tempfile.mkdtemp(prefix="wt-", dir="/tmp"); os.rmdir(wt)
 subprocess.run(["git", "-C", "/repo", "worktree", "add", "-q", "--detach", wt, "HEAD"], check=True)
 try:
@@ -21,7 +26,8 @@ try:
             cmd = [sys.executable, "-m", "simverif.check", pid, "--tier", tier] + (["--runs", runs] if runs else [])
             env = dict(os.environ, VERIF_REPO=wt, VERIF_SEED=sd)
             env.pop("SIMVERIF_PINNED", None)
-            r = subprocess.run(cmd, cwd="/verif", env=env, capture_output=True, text=True)
+            env["VERIF_NO_EVIDENCE"] = "1"
+            r = subprocess.run(cmd, cwd=snap, env=env, capture_output=True, text=True)
             lines = [l for l in r.stdout.splitlines() if l.startswith("VIOLATION") or l.startswith("  class=")]
             print("%s seed=%s exit=%d %s" % (pid, sd, r.returncode, (r.stdout.strip().splitlines() or [""])[-1][:160]))
             for l in lines[:8]: print("   ", l[:300])
@@ -31,3 +37,4 @@ try:
 finally:
     subprocess.run(["git", "-C", "/repo", "worktree", "remove", "--force", wt])
     shutil.rmtree(wt, ignore_errors=True)
+    shutil.rmtree(snap, ignore_errors=True)
